@@ -131,8 +131,12 @@ def _refs_of(nd):
   """Effective references of a node: (key, j, ref).  Edits: only the last setattr of a
   parameter that is not followed by a delattr is effective; it shadows kw."""
   out = []
+  # a positional argument removed again by a `delitem` edit is not part of the configuration
+  dropped = {e[1] for e in nd.get('edits', []) if e[0] == 'delitem' and isinstance(e[1], int)}
   for key in ('items', 'pos'):
     for j, r in enumerate(nd.get(key, [])):
+      if key == 'pos' and j in dropped:
+        continue
       out.append((key, j, r))
   final = {}
   for idx, e in enumerate(nd.get('edits', [])):
